@@ -16,7 +16,7 @@ RW_OPS = {"read", "write", "tryread", "trywrite", "unlockr", "unlockw"}
 CV_OPS = {"cvwait", "notify1", "notifyall"}
 NTF_OPS = {"nwait", "notify"}
 CHAN_OPS = {"send", "recv", "tryrecv", "droprx"}
-ARC_OPS = {"aclone", "adrop", "acount", "agetmut", "aunwrap", "aintoraw", "afromraw", "aptreq"}
+ARC_OPS = {"aclone", "adrop", "acount", "agetmut", "aunwrap", "aintoraw", "afromraw", "aptreq", "ahold", "adropheld"}
 TRK_OPS = {"tnew", "tdrop", "tforget"}
 TL_OPS = {"tlwith", "tlnest"}
 LZ_OPS = {"lzget"}
@@ -98,6 +98,9 @@ def normalize(p):
             elif op == "wake": sets["aws"].add(i["o"])
             elif op in ARC_OPS:
                 assert i["o"] in hmap, ("unknown handle", i)
+            elif op == "spawn":
+                if i["o2"]: sets["chans"].add(i["o2"])
+                if i["k"]: sets["trks"].add(i["k"])
     for k, s in sets.items():
         q[k] = sorted(s)
     q["arcs"] = sorted(arcs)
